@@ -112,7 +112,9 @@ type G struct {
 	settle  bool
 	opSite  string
 	prio    int64
-	enabled []int // scratch: enabled case indexes
+	enabled []int // cached: enabled case indexes (valid while registered and not dirty)
+	registered bool // its pending cases are in the scheduler's channel indexes
+	needEval   bool
 	lib     bool  // created (transitively) by non-harness code; informational
 }
 
@@ -161,6 +163,13 @@ type Sim struct {
 	closed  map[unsafe.Pointer]bool
 	sendW   map[unsafe.Pointer][]*G
 	recvW   map[unsafe.Pointer][]*G
+	blockedOn map[unsafe.Pointer][]*G // goroutines with a pending case on the channel (either direction)
+	dirty     []unsafe.Pointer         // channels whose waiters must be re-evaluated
+	live      []*G                     // not yet exited, in id order
+	justRan   []*G                     // released in the last step (the only ones that can have parked anew)
+	sinceFull int
+	probeHit  bool // a probe discovered an untracked close during this evaluation
+	verify    bool
 
 	timers  []*Timer // heap by (when, seq)
 	now     int64
@@ -247,6 +256,8 @@ func Run(cfg Config, root func()) *Result {
 		closed:   map[unsafe.Pointer]bool{},
 		sendW:    map[unsafe.Pointer][]*G{},
 		recvW:    map[unsafe.Pointer][]*G{},
+		blockedOn: map[unsafe.Pointer][]*G{},
+		verify:   os.Getenv("DETSIM_VERIFY") != "",
 		rng:      rand.New(rand.NewSource(cfg.Seed)),
 		rngUser:  rand.New(rand.NewSource(cfg.Seed ^ 0x5deece66d)),
 		tapeIn:   cfg.Tape,
@@ -321,6 +332,7 @@ func (s *Sim) newG(name, site string, parent *G) *G {
 	}
 	g.prio = s.rng.Int63()
 	s.gs = append(s.gs, g)
+	s.live = append(s.live, g)
 	return g
 }
 
@@ -573,7 +585,93 @@ func (s *Sim) loop(root *G) {
 	}
 }
 
+func removeG(list []*G, g *G) []*G {
+	for i, x := range list {
+		if x == g {
+			copy(list[i:], list[i+1:])
+			list[len(list)-1] = nil
+			return list[:len(list)-1]
+		}
+	}
+	return list
+}
+
+// unregister takes g's pending cases out of the channel indexes; every channel
+// it was waiting on becomes dirty (waiter lists change, and the operation about
+// to happen changes the channel's length).
+func (s *Sim) unregister(g *G) {
+	if !g.registered {
+		return
+	}
+	g.registered = false
+	for _, c := range g.cases {
+		if c.ch == nil {
+			continue
+		}
+		if l := removeG(s.blockedOn[c.ch], g); len(l) == 0 {
+			delete(s.blockedOn, c.ch)
+		} else {
+			s.blockedOn[c.ch] = l
+		}
+		if c.capv == 0 {
+			if c.send {
+				if l := removeG(s.sendW[c.ch], g); len(l) == 0 {
+					delete(s.sendW, c.ch)
+				} else {
+					s.sendW[c.ch] = l
+				}
+			} else {
+				if l := removeG(s.recvW[c.ch], g); len(l) == 0 {
+					delete(s.recvW, c.ch)
+				} else {
+					s.recvW[c.ch] = l
+				}
+			}
+		}
+		s.dirty = append(s.dirty, c.ch)
+	}
+}
+
+// register puts a newly blocked goroutine's cases into the indexes.
+func (s *Sim) register(g *G) {
+	g.registered = true
+	g.needEval = true
+	for i, c := range g.cases {
+		if c.ch == nil {
+			continue
+		}
+		dup := false
+		for _, d := range g.cases[:i] {
+			if d.ch == c.ch && d.send == c.send {
+				dup = true
+			}
+		}
+		if !containsG(s.blockedOn[c.ch], g) {
+			s.blockedOn[c.ch] = append(s.blockedOn[c.ch], g)
+		}
+		if c.capv == 0 && !dup {
+			if c.send {
+				s.sendW[c.ch] = append(s.sendW[c.ch], g)
+			} else {
+				s.recvW[c.ch] = append(s.recvW[c.ch], g)
+			}
+		}
+		s.dirty = append(s.dirty, c.ch)
+	}
+}
+
+func containsG(list []*G, g *G) bool {
+	for _, x := range list {
+		if x == g {
+			return true
+		}
+	}
+	return false
+}
+
 func (s *Sim) release(g *G, k int, pair bool) {
+	s.unregister(g)
+	s.justRan = append(s.justRan, g)
 	g.state = gRunning
 	g.cases = nil
 	g.settle = false
@@ -602,59 +700,49 @@ func (s *Sim) record(g *G, site string, k int) {
 // candidate list: goroutines (by id) with at least one enabled move, then due
 // timers, then (stall strategy) possibly the next future timer.
 func (s *Sim) computeEnabled(cands []cand) []cand {
-	for k := range s.sendW {
-		delete(s.sendW, k)
-	}
-	for k := range s.recvW {
-		delete(s.recvW, k)
-	}
-	live := 0
-	for _, g := range s.gs {
-		if g.state == gExited {
-			continue
-		}
-		live++
-		if g.state != gBlocked {
-			continue
-		}
-		for _, c := range g.cases {
-			if c.ch == nil || c.capv != 0 {
-				continue
-			}
-			if c.send {
-				s.sendW[c.ch] = append(s.sendW[c.ch], g)
-			} else {
-				s.recvW[c.ch] = append(s.recvW[c.ch], g)
-			}
+	// 1. goroutines that ran in the last step (or were just created) may have
+	//    parked with new pending cases
+	for _, g := range s.justRan {
+		if g.state == gBlocked && !g.settle && !g.registered {
+			s.register(g)
 		}
 	}
-	if live > s.maxG {
-		s.maxG = live
-	}
-	for _, g := range s.gs {
+	s.justRan = s.justRan[:0]
+	exited := 0
+	for _, g := range s.live {
 		switch g.state {
-		case gRunnable:
-			cands = append(cands, cand{g: g})
+		case gExited:
+			exited++
 		case gBlocked:
-			if g.settle {
-				continue
-			}
-			g.enabled = g.enabled[:0]
-			for i, c := range g.cases {
-				if c.ch == nil {
-					continue
-				}
-				if s.caseEnabled(g, c) {
-					g.enabled = append(g.enabled, i)
-				}
-			}
-			if len(g.enabled) == 0 && g.hasDef {
-				g.enabled = append(g.enabled, len(g.cases))
-			}
-			if len(g.enabled) > 0 {
-				cands = append(cands, cand{g: g})
+			if !g.settle && !g.registered { // new goroutines park for the first time without having been released
+				s.register(g)
 			}
 		}
+	}
+	if exited > 32 && exited*2 > len(s.live) {
+		keep := s.live[:0]
+		for _, g := range s.live {
+			if g.state != gExited {
+				keep = append(keep, g)
+			}
+		}
+		for i := len(keep); i < len(s.live); i++ {
+			s.live[i] = nil
+		}
+		s.live = keep
+		exited = 0
+	}
+	if n := len(s.live) - exited; n > s.maxG {
+		s.maxG = n
+	}
+	// 2. re-evaluate the waiters of every channel something happened to
+	s.sinceFull++
+	full := s.sinceFull >= 64 || s.verify
+	cands = s.evalAndCollect(cands, full)
+	if len(cands) == 0 && !full {
+		// about to conclude "nothing can run": channels closed by uninstrumented
+		// code (context cancellation) are only found by probing - look at everybody
+		cands = s.evalAndCollect(cands[:0], true)
 	}
 	nops := len(cands)
 	for _, t := range s.timers {
@@ -680,6 +768,72 @@ func (s *Sim) computeEnabled(cands []cand) []cand {
 		cands = append(cands, cand{timer: s.timers[0], stall: true})
 	}
 	return cands
+}
+
+// evalAndCollect recomputes the enabled cases of the goroutines that need it
+// (all of them when full) and returns the operation candidates in id order.
+func (s *Sim) evalAndCollect(cands []cand, full bool) []cand {
+	if full {
+		s.sinceFull = 0
+	}
+	for _, ch := range s.dirty {
+		for _, g := range s.blockedOn[ch] {
+			g.needEval = true
+		}
+	}
+	s.dirty = s.dirty[:0]
+	for _, g := range s.live {
+		switch g.state {
+		case gRunnable:
+			cands = append(cands, cand{g: g})
+		case gBlocked:
+			if g.settle {
+				continue
+			}
+			if g.needEval || full {
+				var before []int
+				if s.verify && !g.needEval {
+					before = append(before, g.enabled...)
+				}
+				wasStale := g.needEval
+				g.needEval = false
+				g.enabled = g.enabled[:0]
+				for i, c := range g.cases {
+					if c.ch == nil {
+						continue
+					}
+					if s.caseEnabled(g, c) {
+						g.enabled = append(g.enabled, i)
+					}
+				}
+				if len(g.enabled) == 0 && g.hasDef {
+					g.enabled = append(g.enabled, len(g.cases))
+				}
+				if s.verify && !wasStale && !sameInts(before, g.enabled) && !s.probeHit {
+					if s.infra == "" {
+						s.infra = fmt.Sprintf("detsim: internal: incremental enabledness of g%d[%s] at %s was %v, full recomputation gives %v", g.id, g.name, g.opSite, before, g.enabled)
+					}
+				}
+			}
+			if len(g.enabled) > 0 {
+				cands = append(cands, cand{g: g})
+			}
+		}
+	}
+	s.probeHit = false
+	return cands
+}
+
+func sameInts(a, b []int) bool {
+	if len(a) != len(b) {
+		return false
+	}
+	for i := range a {
+		if a[i] != b[i] {
+			return false
+		}
+	}
+	return true
 }
 
 // deadlineWithin: some harness deadline timer expires at or before t (a stall
@@ -729,6 +883,8 @@ func (s *Sim) caseEnabled(g *G, c Case) bool {
 	// channel closed by uninstrumented code (context cancellation)?
 	if c.probe != nil && c.probe() {
 		s.closed[c.ch] = true
+		s.dirty = append(s.dirty, c.ch) // other waiters of this channel must be looked at again
+		s.probeHit = true
 		return true
 	}
 	return false
@@ -965,6 +1121,7 @@ func Close[C ~chan T | ~chan<- T, T any](site string, c C) {
 	}
 	if !s.aborting {
 		s.closed[chanPtr(c)] = true
+		s.dirty = append(s.dirty, chanPtr(c))
 	}
 	close(c)
 }
